@@ -65,6 +65,8 @@ class Table:
 def ts(sec, how="timestamp"):
     if sec is None:
         return None
+    if how.startswith("aware:"):  # the same instant as a tz-aware stamp in the named zone
+        return pd.Timestamp(int(round(sec * 1000)), unit="ms", tz="UTC").tz_convert(how[6:])
     if sec != int(sec) or not (-2 ** 33 < sec < 2 ** 33):
         tsx = pd.Timestamp(int(round(sec * 1000)), unit="ms")  # fractional seconds / far dates
         return tsx if how in ("timestamp", "dt64") else tsx.to_pydatetime() if how == "datetime" else tsx.isoformat()
@@ -201,11 +203,16 @@ class Scratch:
         shutil.rmtree(self.dir, ignore_errors=True)
 
 
-def to_frame(tb: Table, index="default", names=None):
+def aware_times(tb: Table, zone):
+    """the table's instants as a tz-aware pandas index in `zone` (same instants, other wall clock)"""
+    return pd.DatetimeIndex(tb.time).tz_localize("UTC").tz_convert(zone)
+
+
+def to_frame(tb: Table, index="default", names=None, time_tz=None):
     names = names or {}
     cols = {}
     if tb.with_time:
-        cols[names.get("time", "time")] = tb.time
+        cols[names.get("time", "time")] = tb.time if time_tz is None else aware_times(tb, time_tz)
     if tb.with_z:
         cols[names.get("z", "z")] = tb.z
     if tb.with_pos:
@@ -281,6 +288,8 @@ def run_frontend(fe, tb: Table, config_dict, scratch: Scratch, opts=None):
         if fe == "qcconfig":
             cfg = QcConfig(config_dict)
             kw = {"inp": tb.data[tb.streams[0]]}
+            if opts.get("masked_input"):
+                kw["inp"] = np.ma.MaskedArray(kw["inp"], mask=[(i % 3 == 1) for i in range(tb.n)])
             if tb.with_time:
                 kw["tinp"] = tb.time
             if tb.with_z:
@@ -291,7 +300,7 @@ def run_frontend(fe, tb: Table, config_dict, scratch: Scratch, opts=None):
         cfg = Config(config_dict)
         if fe == "pandas":
             names = opts.get("names") or {}
-            df = to_frame(tb, opts.get("index", "default"), names)
+            df = to_frame(tb, opts.get("index", "default"), names, time_tz=opts.get("time_tz"))
             st = PandasStream(df, **{k: v for k, v in names.items()})
         elif fe in ("numpy-dict", "numpy-array"):
             if tb.with_time:
@@ -454,6 +463,33 @@ def aggregate_workload(ctx, runs) -> None:
                 ctx.violation("C04:aggregate-over-collected-results",
                               {"kind": "aggregate-run", "table": tb.describe(), "contexts": core.jsonable(contexts),
                                "collected": vectors, "expected": expect, "observed": got})
+            if rng.random() < 0.5:
+                # the same stream checked again under another configuration (same stream / package / test labels, other
+                # flags), both sets of collected results rolled up together: every result handed over counts
+                contexts_b = [{"window": c["window"], "streams": {"v1": [(m, t, ({**kw, "tag": kw["tag"] + 1 + wi} if t == "vf_probe_test" else kw))
+                                                                    for m, t, kw in c["streams"]["v1"]]}}
+                              for wi, c in enumerate(contexts)]
+                res_b, err_b = run_frontend("pandas", tb, build_config(contexts_b), scratch)
+                if err_b is None:
+                    collected_b = collect_results(res_b, how="list")
+                    both_ = list(collected) + list(collected_b)
+                    if rng.random() < 0.5:
+                        both_.reverse()
+                    vec_b = []
+                    for cr in both_:
+                        data, mask = np.ma.getdata(cr.results), np.ma.getmaskarray(cr.results)
+                        vec_b.append([None if mask[i] else int(data[i]) for i in range(n)])
+                    try:
+                        got_b = np.ma.getdata(aggregate(both_)).tolist()
+                    except Exception as e:  # noqa: BLE001
+                        got_b = f"raised {type(e).__name__}"
+                    ctx.count("aggregate.calls")
+                    ctx.count("aggregate.two_runs_rolled_up_together")
+                    if got_b != models.compare(vec_b):
+                        ctx.violation("C04:aggregate-over-results-of-two-runs",
+                                      {"kind": "aggregate-run", "table": tb.describe(), "contexts": core.jsonable(contexts),
+                                       "contexts_second_run": core.jsonable(contexts_b), "collected": vec_b,
+                                       "expected": models.compare(vec_b), "observed": got_b})
             roll = [c for c in df.columns if c.endswith("rollup")]
             ctx.count("rollup.columns_checked", len(roll))
             if len(roll) != 1:
